@@ -220,6 +220,6 @@ pub fn build() -> Property {
             "sets are compared as sets (first-seen order of FEE ids / layer-staves is not part of the statement); links must be sorted".into(),
             "runs that stop early with a FATAL error and inputs whose first analysed packet has an unknown system id are excluded (counted)".into(),
         ],
-        phases: vec![Phase { name: "cli_stats", kind: PhaseKind::Gen { cases: (1200, 12000), tape_len: 8 + 32 + 64 + 2000 + 6 * 4000 + 14000 + 200, f: Box::new(case) }, threads: 16 }],
+        phases: vec![Phase { name: "cli_stats", kind: PhaseKind::Gen { cases: (7000, 50000), tape_len: 8 + 32 + 64 + 2000 + 6 * 4000 + 14000 + 200, f: Box::new(case) }, threads: 16 }],
     }
 }
